@@ -22,7 +22,15 @@ invertible mixing, real and complex, hierarchy k=1..2 quick / 1..3 thorough, con
 matrices of size 2..8), hostile (orthonormal bases rotated such that the planted element has a coefficient 1e-2..1e-6 on the
 last basis vector), corner (unit-matrix generators, explicit two-dimensional families), realistic (the library's own
 examples and completely-entangled-subspace constructions, the zero-error example whose complement contains |L><R|),
-repo-tests (thorough: the repository's matrix_space tests under the contracts).
+repo-tests (thorough: the repository's matrix_space tests under the contracts), history / layout / call-order (shard
+'history'): every monitored function is judged against a snapshot of its argument taken at call time and must leave the
+argument untouched (`<fn>/mutates-argument`); work buffers and python lists refilled in place (generic subspace first, then a
+planted one in the same object, same and other hierarchy_k, and the reverse order; a new array that gets the id of a freed
+argument) must give the answer of a fresh copy of the same values (`<fn>/stale-after-inplace-update`); results are overwritten
+by the caller and the call repeated (`<fn>/stale-after-result-edit`, `<fn>/result-aliases-*`); the same values as Fortran-ordered,
+strided, sliced, axis-reversed, complex-dtype, integer-dtype and list inputs (`<fn>/layout-dependent`); the same ~100
+configurations of all six functions in three call orders inside one process with one repeated at the end
+(`<fn>/call-order-dependent`).
 
 Defects found with this module and since repaired in /repo (their reversals are mutants): defect 16 (rank-one detector
 compared its bound with 1 without tolerance) and the LU-pivot regularity test of both hierarchies (false certificates when
@@ -56,7 +64,9 @@ RULE = ('cases: (a) basis: one call of get_matrix_orthogonal_basis on generators
         '(c) numerical range: one call on a random complex matrix of size 2..8 (non-normal, real, Hermitian, normal, '
         'degenerate normal, nilpotent, unitary), non-trivial when the matrix is not a multiple of the identity; '
         '(d) bipartite range: one call on a random symmetric real matrix / subspace projector, non-trivial when the matrix '
-        'differs from its partial transpose; distinct by digest of (function, arguments)')
+        'differs from its partial transpose; (e) histories: one case = one (function, container kind, order, hierarchy levels) history on a '
+        'refilled buffer / list / id-reusing array, one (function, layout) variant of the same values, or one position of a configuration in '
+        'one of three call orders; always non-trivial (the two fillings differ); distinct by digest of (function, arguments)')
 EXHAUSTIVE = {'quick': False, 'thorough': False}
 EXHAUSTIVE_DOMAINS = {'quick': [], 'thorough': []}
 ASSUMPTIONS = [
@@ -70,6 +80,12 @@ ASSUMPTIONS = [
     'get_matrix_numerical_range(A, n) returns the point of direction t_i = linspace(0, 2 pi, n)[i], maximising Re(e^{i t_i} z) '
     'over W(A) (convention read from the code: the docstring fixes none); membership in W(A) is checked independently of it',
     'get_real_bipartite_numerical_range is judged for method="eigen" only (method="rotation" is documented as possibly wrong)',
+    'answers for equal values are compared up to what the contract leaves free: booleans exactly, bounds to 1e-9, numerical-range points by '
+    'their support values Re(e^{it}p) (the point itself is not unique for a degenerate top eigenvalue), bases by class name, shapes and the '
+    'projectors onto span(basis) and span(complement)',
+    'a real-valued generator list stored with complex dtype keeps its class only when spanned over C (documented table), so the complex-dtype '
+    'variant of get_matrix_orthogonal_basis is driven for field="complex" only; integer generators are driven for hierarchy_k=1 only (for '
+    'hierarchy_k>=2 numqi raises UFuncTypeError on integer dtype: not accepted, not a certificate)',
     'tolerances: 1e-9 relative to the operator norm for numerical ranges and bounds; 1e-9 (relative to the squared norm) for orthogonality and '
     'norm spread; span residuals and complement-vs-generator inner products max(1e-10, 1e3*eps*kappa) with kappa the condition number of the '
     'generators inside their span (observed need: 24*eps*kappa), inconclusive beyond 1e-6',
